@@ -621,7 +621,7 @@ Section Strings.
         { intros Hpw. destruct (plain_word_no_forms s Hpw) as (F1 & F2 & F3 & F4 & F5 & F6).
           unfold oneof_text. change (in_parenthesis s) with (paren_form s). change (in_braces s) with (brace_form s).
           change (in_brackets s) with (binding_form s). rewrite F1, F2, F3, F5, !andb_false_r.
-          unfold check_options_list. rewrite (loop_word o options s); [|rewrite Hw; reflexivity|exact F6].
+          unfold check_options_list. rewrite (loop_word o options s); [|exact Hw|exact F6].
           unfold word_text. destruct (str_eqb (lower s) (Str "end")).
           - apply escape_quotes_add. exact Hnq.
           - apply escape_quotes_other. destruct (upper_plain_word_head s Hpw) as (c & t & -> & N1 & N2).
@@ -631,7 +631,7 @@ Section Strings.
           -- unfold required_met. intros Hnf. destruct (no_form_facts s Hnf) as (F1 & F2 & F3 & F4 & F5 & F6).
              unfold oneof_text. change (in_parenthesis s) with (paren_form s). change (in_braces s) with (brace_form s).
              change (in_brackets s) with (binding_form s). rewrite F1, F2, F3, F5, !andb_false_r. cbn [andb].
-             unfold check_options_list. rewrite (loop_word o options s); [|rewrite Hw; reflexivity|exact F6].
+             unfold check_options_list. rewrite (loop_word o options s); [|exact Hw|exact F6].
              unfold word_text. rewrite Ee. apply escape_quotes_add. exact Hnq.
           -- unfold required_met. intros Hpw. rewrite (G Hpw). unfold word_text. rewrite Ee. reflexivity.
       + (* not an enumerated word *)
@@ -653,8 +653,10 @@ Section Strings.
           rewrite (delimited_exclusive 47%N 47%N 40%N 41%N s E3 eq_refl).
           rewrite (delimited_exclusive 47%N 47%N 123%N 125%N s E3 eq_refl).
           rewrite (delimited_exclusive 47%N 47%N 91%N 93%N s E3 eq_refl), !andb_false_r.
-          rewrite (delimited_not_prefixed 47%N 47%N s (Str "OT ") 78%N E3 eq_refl eq_refl). cbn [andb].
-          destruct (loop_not_word o options s) as [-> | ->]; [rewrite Hw; exact Em|rewrite E3|];
+          assert (Hnot : startswith s (Str "NOT ") = false)
+            by exact (delimited_not_prefixed 47%N 47%N s (Str "OT ") 78%N E3 eq_refl eq_refl).
+          rewrite Hnot. cbn [andb].
+          destruct (loop_not_word o options s) as [-> | ->]; [exact Hw|rewrite E3|];
             apply (escape_verbatim 47%N 47%N); try exact E3; cbn [In]; tauto. }
         destruct (delimited 123 125 s && str_eqb attr (Str "expression")) eqn:E4.
         { apply andb_true_iff in E4. destruct E4 as [E4 E4a]. cbn [required_met].
@@ -664,7 +666,7 @@ Section Strings.
         unfold required_met. intros Hnf. destruct (no_form_facts s Hnf) as (F1 & F2 & F3 & F4 & F5 & F6).
         unfold paren_form, binding_form, brace_form, regex_form in *.
         rewrite F1, F2, F3, F5, !andb_false_r. cbn [andb].
-        rewrite (loop_plain o options s); [|rewrite Hw; exact Em|exact F6].
+        rewrite (loop_plain o options s); [|exact Hw|exact F6].
         rewrite F4. apply escape_quotes_add. exact Hnq.
     - (* fall-through keyword: the schema offers nothing to strings *)
       apply andb_true_iff in Hc. destruct Hc as [Hc Hex]. apply andb_true_iff in Hc. destruct Hc as [Hw Hno].
